@@ -3,12 +3,58 @@ NOTES = ("Deterministic simulation with fault injection for a sequential in-memo
          "Exit 0 = property held on everything explored (KNOWN-FINDING lines possible), 1 = VIOLATION with a "
          "minimised replay file, 2 = harness error.")
 
-CLAIMS = {}
+NOTE_BASE = ("Trusted: the set-based reference model and the reading of the statement in DESIGN.md Appendix A; "
+             "CPython/networkx/stdlib run for real and are not under test; sampling of histories up to 6 nodes, "
+             "~16 instants, 40 operations per run - a clean batch is evidence, not proof.")
+
+
+def claim(level, ref, technique, text, note=''):
+    return dict(level=level, ref=ref, technique=technique, text=text, note=(note + ' ' + NOTE_BASE).strip())
+
+
+CLAIMS = {
+    'C01': claim('exploration', 'DESIGN.md 7/C01',
+                 'deterministic simulation: seeded class-directed call histories vs set model, checked after every step',
+                 'After every step of a seeded history (both classes, all call spellings and bulk helpers, rejected '
+                 'calls interleaved) has_interaction is compared with the union-of-spans model for every node pair '
+                 '(unknown nodes included) and every instant in [min-2,max+2]; every call must end in exactly the '
+                 'outcome class the documented rule gives. Second-schedule runs check that interleaving of '
+                 'independent clients does not change the final presence.'),
+    'C03': claim('exploration', 'DESIGN.md 7/C03',
+                 'deterministic simulation: timeline invariant after every step on root and derived replicas',
+                 'The timelines exposed by the interaction views are compared with the model run list after every '
+                 'step (canonical form, union = presence, both directions equal), on roots and on every graph the '
+                 'library derives (slices, conversions, readers, node_link_graph) which then keeps being mutated.'),
+    'C04': claim('exploration', 'DESIGN.md 7/C04',
+                 'deterministic simulation: snapshot-index invariant after every step',
+                 'temporal_snapshots_ids, interactions_per_snapshots (dict and per-t forms over [min-2,max+2]) and '
+                 'avg_number_of_nodes are compared with the model after every step of seeded histories with spans, '
+                 're-adds, overlaps and rejected calls.'),
+    'C05': claim('exploration', 'DESIGN.md 7/C05',
+                 'deterministic simulation: stream constraints checked over the event log after every step',
+                 'After every step the stream must be chronological, repeat-free per pair, have a + exactly at run '
+                 'starts, only legitimate - events, close every run longer than one instant and decode back to the '
+                 'model presence. One open finding (D12a, pinned by existing tests) exempts the closure/decode '
+                 'clauses for a pair while it has a point+point two-instant run.'),
+    'C07': claim('fault_enumeration', 'DESIGN.md 7/C07',
+                 'deterministic simulation with injected rejections (out-of-order, missing t, failing bulk element, failing iterable) + shadow replay',
+                 'Rejected calls are injected at seeded points of histories in both classes and both modes; the full '
+                 'public observable state must be identical before and after a rejected call, a failed bulk helper '
+                 'must leave exactly the state of its accepted prefix (compared against a scratch copy fed one element '
+                 'at a time), the failing index is enumerated over all positions, and at the end the accepted '
+                 'operations alone replayed on fresh objects must give the same observable state.'),
+    'C08': claim('exploration', 'DESIGN.md 7/C08',
+                 'deterministic simulation: accumulative-mode invariant after every step, acceptance observed',
+                 'On edge_removal=False graphs of both classes presence must equal first<=t<=last snapshot id for all '
+                 'pairs and instants after every step, the stream must be exactly one + per pair at its first instant, '
+                 'and the ids exactly the accepted instants.'),
+}
 
 NOT_APPLICABLE = {
     'C14': 'annotate_paths is a pure function of an argument list: no state, history, fault, I/O, PRNG or '
            'aliasing for a simulator to control (DESIGN.md section 8)',
 }
-for _p in ['C01', 'C02', 'C03', 'C04', 'C05', 'C06', 'C07', 'C08', 'C09', 'C10', 'C11', 'C12', 'C13', 'C15',
+for _p in ['C02', 'C06', 'C09', 'C10', 'C11', 'C12', 'C13', 'C15',
            'C16', 'C17', 'C18', 'C19', 'C20']:
-    NOT_APPLICABLE.setdefault(_p, 'check under construction in this session (DESIGN.md section 11); not claimed yet')
+    if _p not in CLAIMS:
+        NOT_APPLICABLE.setdefault(_p, 'check under construction in this session (DESIGN.md section 11); not claimed yet')
